@@ -316,6 +316,10 @@ POSITIONAL = {"dchisq": ["df"], "pchisq": ["df"], "dexp": ["rate"], "pexp": ["ra
               "dbeta": ["shape1", "shape2"]}
 
 
+QPOSITIONAL = {"qexp": ["rate"], "qchisq": ["df"], "qgamma": ["shape", "rate"], "qnorm": ["mean", "sd"], "qunif": ["min", "max"],
+               "qbeta": ["shape1", "shape2"], "qpois": ["mu"]}
+
+
 def judge_dp(inp):
     """inp: fn (dexp...), fam, x, params (R-named; nbinom: size + prob|mu), flags (log, lower_tail)"""
     mp = mpctx()
@@ -365,8 +369,14 @@ def judge_q(inp):
         u = mp.mpf(inp["u"])
     arg = 1 - u if flags.get("lower_tail") is False else u
     arg = float(mp.log(arg)) if flags.get("log") else float(arg)
-    st, got = call(fn, [arg], dict(Pc, **flags))
-    desc = "%s(%r, %s)" % (fn, arg, ", ".join("%s=%r" % kv for kv in list(Pc.items()) + list(flags.items())))
+    if inp.get("positional"):
+        # every argument by position (pinned order): two families called with the same numbers are still two families
+        args = [arg] + [Pc[k] for k in QPOSITIONAL[fn]]
+        st, got = call(fn, args, {})
+        desc = "%s(%s)" % (fn, ", ".join(repr(a) for a in args))
+    else:
+        st, got = call(fn, [arg], dict(Pc, **flags))
+        desc = "%s(%r, %s)" % (fn, arg, ", ".join("%s=%r" % kv for kv in list(Pc.items()) + list(flags.items())))
     if st == "missing":
         return None
     if st == "raise":
@@ -660,6 +670,16 @@ CORPUS = [
     dict(kind="dp", fn="dpois", fam="pois", x=790, params=dict(mu=800.0), flags=dict(log=True)),
     dict(kind="dp", fn="dbinom", fam="binom", x=1010, params=dict(size=2000, prob=0.5), flags=dict(log=False)),
     dict(kind="dp", fn="dgamma", fam="gamma", x=148.0, params=dict(shape=300.0, rate=2.0), flags=dict(log=True)),
+    # different families asked for the same probability with the same numbers, one after the other
+    dict(kind="q", fn="qexp", fam="exp", u=0.3, params={}, flags={}),
+    dict(kind="q", fn="qnorm", fam="norm", u=0.3, params={}, flags={}),
+    dict(kind="q", fn="qunif", fam="unif", u=0.3, params={}, flags={}),
+    dict(kind="q", fn="qchisq", fam="chisq", u=0.75, params=dict(df=2.0), flags={}, positional=True),
+    dict(kind="q", fn="qexp", fam="exp", u=0.75, params=dict(rate=2.0), flags={}, positional=True),
+    dict(kind="q", fn="qgamma", fam="gamma", u=0.75, params=dict(shape=2.0, rate=3.0), flags={}, positional=True),
+    dict(kind="q", fn="qnorm", fam="norm", u=0.75, params=dict(mean=2.0, sd=3.0), flags={}, positional=True),
+    dict(kind="q", fn="qunif", fam="unif", u=0.75, params=dict(min=2.0, max=3.0), flags={}, positional=True),
+    dict(kind="q", fn="qbeta", fam="beta", u=0.75, params=dict(shape1=2.0, shape2=3.0), flags={}, positional=True),
     # arguments so small that 1 - exp(-x) loses every digit unless it is computed as -expm1(-x); both tail flags together
     dict(kind="dp", fn="pexp", fam="exp", x=1e-12, params=dict(rate=2.5), flags=dict(log=False)),
     dict(kind="dp", fn="pexp", fam="exp", x=3e-18, params=dict(rate=0.5), flags=dict(log=True)),
